@@ -101,7 +101,7 @@ static void c16_hang(const char *where)
   vk_violation("C16", "unexpected-hang", key, "blocked forever in %s (child state %d, step %d of %d)", where, CH ? CH->state : -1, CH ? CH->pos : -1, CH ? CH->nsteps : -1);
 }
 
-struct dcfg { int script, size, em, sm, failk, deadline, api, realloc_fault; };
+struct dcfg { int script, size, em, sm, failk, deadline, api, realloc_fault, prefail; };
 
 static int is_interleaving(const char *s, size_t n, uint32_t n1, uint32_t n2)
 {
@@ -143,9 +143,9 @@ static void body(const struct dcfg *c, int tier)
     vk_cfg.fault_calls = 1ull << C_REALLOC;
   }
   snprintf(key, sizeof key, "h_c16|%s|script=%s|size=%d|stderr=%s|sink=%s@%d|deadline=%d|%s", c->api ? "run_ex" : "drain", d_scripts[c->script], c->size,
-           em_names[c->em], sm_names[c->sm], c->failk, c->deadline, c->realloc_fault ? "realloc-faults" : "no-faults");
+           em_names[c->em], sm_names[c->sm], c->failk, c->deadline, c->realloc_fault ? "realloc-faults" : c->prefail ? "after-failed-start-with-deadline" : "no-faults");
   hx_desc("%s", key);
-  snprintf(key, sizeof key, "h_c16|%s|stderr=%s|sink=%s", c->api ? "run_ex" : "drain", em_names[c->em], sm_names[c->sm]);
+  snprintf(key, sizeof key, "h_c16|%s|stderr=%s|sink=%s%s", c->api ? "run_ex" : "drain", em_names[c->em], sm_names[c->sm], c->prefail ? "|second-start" : "");
   hx_begin();
   vk_set_hang_hook(c16_hang);
   CH = NULL;
@@ -178,24 +178,37 @@ static void body(const struct dcfg *c, int tier)
     so = reproc_sink_string(&s_out);
     se = c->sm == SM_STR_SAME ? reproc_sink_string(&s_out) : reproc_sink_string(&s_err);
   }
+  if (c->prefail) vk_script(""); /* consumed by the fork of the start that fails */
   vk_script(script);
   int r;
-  int64_t t0 = vk_now();
   reproc_t *p = NULL;
-  if (c->api == API_DRAIN) {
+  if (c->api == API_DRAIN && c->prefail) {
+    /* the handle's first start, with a deadline, fails; the start that counts has none: nothing of the first may cut the drain short */
+    static const char *const missing[] = { "/nonexistent/c16-program", NULL };
+    reproc_options ob;
+    memset(&ob, 0, sizeof ob);
+    ob.deadline = 1;
     p = hx_new();
+    vk_cfg.sched_on = 0;
+    int rb = hx_start(p, missing, ob);
+    vk_cfg.sched_on = 1;
+    if (rb >= 0) vk_finish(OUT_INFRA, "start of a missing program succeeded");
+    vk_advance(2);
+  }
+  int64_t t0 = vk_now();
+  if (c->api == API_DRAIN) {
+    if (!p) p = hx_new();
     vk_cfg.sched_on = 0;
     r = hx_start(p, hx_helper_argv(), o);
     vk_cfg.sched_on = 1;
     if (r < 0) vk_finish(OUT_INFRA, "start failed: %d", r);
-    CH = &vk_children[0];
+    CH = &vk_children[vk_nchildren - 1];
     for (int i = 1; i < 3; i++) {
       int f = ident_parent_fd_for_stream(CH, i);
       if (f >= 0) fcntl(f, F_SETPIPE_SZ, CAP);
     }
     vk_faults_armed = 1;
     hx_last_api = vk_api_begin("drain()");
-    CH = &vk_children[0];
     r = reproc_drain(p, so, se);
     vk_api_end(r);
     vk_faults_armed = 0;
@@ -373,8 +386,9 @@ static void build(void)
                   if (!tier && size > CAP && (sm == SM_FAILNEG || sm == SM_FAILPOS) && k > 2) continue;
                   for (int rf = 0; rf < (sm >= SM_STR_NULL ? 2 : 1); rf++) {
                     if (rf && size > CAP + 1) continue; /* growth steps of large strings are the same code path */
-                    struct dcfg c = { sc, size, e, sm, k, deadline, api, rf };
+                    struct dcfg c = { sc, size, e, sm, k, deadline, api, rf, 0 };
                     store[tier][n++] = c;
+                    if (sm == SM_REC && !deadline && api == API_DRAIN && size <= 1 && !rf) { c.prefail = 1; store[tier][n++] = c; }
                   }
                 }
           }
